@@ -374,8 +374,10 @@ def main(path, default_bg, mode, premium):
             output_filename = file_path.stem + "_cm" + file_path.suffix
             output_path = file_path.parent / output_filename
 
+            # Serialise first: if that fails, no (empty) output file is left behind
+            output_css = tinycss2.serialize(rules)
             with open(output_path, "w", encoding="utf-8") as f:
-                f.write(tinycss2.serialize(rules))
+                f.write(output_css)
 
         except Exception as e:
             click.echo(f"Error processing {file_path}: {e}", err=True)
